@@ -17,6 +17,7 @@ type Effects struct {
 	Reads  map[string]Sort
 	Top    bool
 	calls  map[*types.Func]bool
+	rawCalls map[*types.Func]bool
 }
 
 func newEffects() *Effects {
@@ -474,6 +475,36 @@ func (p *Prog) computeEffects() {
 		}
 		fi.eff = c.eff
 	}
+	// a function with a modifies clause is seen by its callers through that
+	// clause (checked when the function itself is verified): it writes only
+	// the named locations; everything else it touches is freshly allocated.
+	for _, fi := range p.Funcs {
+		if !fi.HasMod {
+			continue
+		}
+		c := &effCollector{p: p, info: fi.Pkg.TypesInfo, eff: newEffects()}
+		for _, m := range fi.Modifies {
+			m = ast.Unparen(m)
+			if call, ok := m.(*ast.CallExpr); ok && markerName(call) == "__elems" {
+				if t := c.typeOf(call.Args[0]); t != nil {
+					if sl, ok := t.Underlying().(*types.Slice); ok {
+						c.cellHeaps(sl.Elem(), c.eff.Writes)
+					}
+				}
+				continue
+			}
+			if ue, ok := m.(*ast.UnaryExpr); ok && ue.Op == token.AND {
+				c.access(ue.X, c.eff.Writes)
+			}
+		}
+		c.eff.Reads = fi.eff.Reads
+		c.eff.Allocs = fi.eff.Allocs
+		if fi.eff.Top || len(fi.eff.calls) > 0 {
+			c.eff.Allocs["H$any"] = SInt
+		}
+		c.eff.rawCalls = fi.eff.calls
+		fi.eff = c.eff
+	}
 	for changed := true; changed; {
 		changed = false
 		for _, fi := range p.Funcs {
@@ -550,7 +581,11 @@ func (p *Prog) isRecursive(fi *FuncInfo) bool {
 	seen := map[*types.Func]bool{}
 	var dfs func(f *FuncInfo) bool
 	dfs = func(f *FuncInfo) bool {
-		for callee := range p.effects(f).calls {
+		calls := p.effects(f).calls
+		if p.effects(f).rawCalls != nil {
+			calls = p.effects(f).rawCalls
+		}
+		for callee := range calls {
 			if callee == fi.Obj {
 				return true
 			}
